@@ -377,6 +377,9 @@ def run(ctx):
     codecmodel.report(ctx, "C03/DISPATCH", codecmodel.explore_dispatch, codecmodel.DISPATCH_LAWS,
                       m.own_method("prop.vDDDTypes.from_ical").loc(), 20)
 
+    codecmodel.report(ctx, "C03/FRESH", codecmodel.explore_freshness, codecmodel.FRESH_LAWS,
+                      m.cls("prop.vDDDTypes").loc(), 8)
+
     # ---- WRAP --------------------------------------------------------------
     try:
         from ..effects import wrap_rule
